@@ -40,7 +40,8 @@ Slides == { [shapes |-> s, notes |-> n] : s \in ShapeLists, n \in { <<>>, <<R>> 
 SheetGrids ==
     { <<>>, << <<1>> >>, << <<1, 1>>, <<1, 1>> >>, << <<1, 0, 1>>, <<0, 1, 1>> >>,
       << <<1, 1>>, <<0, 0>>, <<1, 1>> >>, << <<1>>, <<1>>, <<1>> >>, << <<0, 1>>, <<1, 1>> >>,
-      << <<0, 0, 1>>, <<1, 1, 1>> >> }                      \* two empty header cells (header names collide)
+      << <<0, 0, 1>>, <<1, 1, 1>> >>,                       \* two empty header cells (header names collide)
+      << <<1, 1, 1>>, <<1, 1, 1>>, <<1, 0, 0>> >> }          \* the last row is narrower than the rows above it (a short totals row)
 
 (* page = lines of token counts *)
 Pages == { <<>>, <<1>>, <<2, 1>>, <<1, 1, 1>>, <<99>> }     \* <<99>>: a position that holds no unit of this kind (gap)
